@@ -763,8 +763,10 @@ func lexerPositions(r *core.Run) {
 				if c, ok := core.Unparen(e).(*ast.CallExpr); ok && core.CalleeIs(info, c, parserRel, "Lexer.getPosition") {
 					return true
 				}
-				if strings.HasSuffix(aliasOf(info, in, e), ".getPosition()") {
-					return true
+				if a := aliasExprOf(info, in, e); a != nil {
+					if c, ok := core.Unparen(a).(*ast.CallExpr); ok && core.CalleeIs(info, c, parserRel, "Lexer.getPosition") {
+						return true
+					}
 				}
 				// a parameter: every caller in the package must hand in a lexer position
 				id, ok := core.Unparen(e).(*ast.Ident)
